@@ -52,6 +52,12 @@ def gen(ctx):
         k = ctx.rng.randint(0, 9)
         ops = ops_for(k)
         cases.append({"k": k, "ops": [list(ctx.rng.choice(ops)) for _ in range(ctx.rng.randint(3, 7))], "view": ctx.rng.choice(["values", "locations", "items", "pointers"])})
+    # tee(0) yields no query to continue with: a script ends at its first successful tee(0)
+    for c in cases:
+        for i, op in enumerate(c["ops"]):
+            if op == ["tee", 0]:
+                c["ops"] = c["ops"][:i + 1]
+                break
     return cases
 
 
@@ -88,6 +94,8 @@ def run_impl(case, defer=False):
                 else:
                     outs.append({"children": [list(c.values()) for c in ch[1:]]})
                 if not ch:
+                    for slot, key, obj in pending:
+                        slot[key] = list(obj.values()) if key == "taken" else [list(c.values()) for c in obj]
                     return {"outs": outs, "final": []}
                 q = ch[0]
             else:
@@ -126,7 +134,6 @@ def evaluate(ctx, cases):
         mod, spec = m["model"], m["spec"]
         if any(op[0] == "tee" and op[1] == 0 for op in c["ops"]):
             ctx.count("tee0")
-            continue
         if impl != mod:
             ctx.mismatch("fluent.run", c, impl, mod)
         if mod != spec:
